@@ -19,6 +19,8 @@ func PayloadTransactionsType(spec *Spec) ListTypeDef {
 type PayloadTransactions []Transaction
 
 func (txs *PayloadTransactions) Deserialize(spec *Spec, dr *codec.DecodingReader) error {
+	// decode into a recycled object: drop what it holds (dr.List appends)
+	*txs = (*txs)[:0]
 	return dr.List(func() codec.Deserializable {
 		i := len(*txs)
 		*txs = append(*txs, Transaction{})
@@ -67,6 +69,8 @@ func TransactionType(spec *Spec) *BasicListTypeDef {
 type Transaction []byte
 
 func (otx *Transaction) Deserialize(spec *Spec, dr *codec.DecodingReader) error {
+	// decode into a recycled object: dr.ByteList keeps a longer old length
+	*otx = (*otx)[:0]
 	return dr.ByteList((*[]byte)(otx), uint64(spec.MAX_BYTES_PER_TRANSACTION))
 }
 
